@@ -112,22 +112,31 @@ def pReg : PM CReg := do
     pure .b
   else failure
 
-def pReq : PM Reflection.Req := do
-  let _host ← pBytes
+def pReqK : PM Reflection.Req := do
   let k ← tok
   if k = "N" then pure .none
   else if k = "F" then do let s ← pBytes; pure (.fileByFilename s)
   else if k = "Y" then do let s ← pBytes; pure (.fileContainingSymbol s)
-  else if k = "X" then do let _ ← pBytes; let _ ← tok; pure .fileContainingExtension
-  else if k = "A" then do let _ ← pBytes; pure .allExtensionNumbersOfType
-  else if k = "L" then do let _ ← pBytes; pure .listServices
+  else if k = "X" then do
+    let s ← pBytes
+    let n ← tok
+    match n.toInt? with
+    | some n => pure (.fileContainingExtension s n)
+    | none => failure
+  else if k = "A" then do let s ← pBytes; pure (.allExtensionNumbersOfType s)
+  else if k = "L" then do let s ← pBytes; pure (.listServices s)
   else failure
+
+def pReq : PM Reflection.Request := do
+  let host ← pBytes
+  let k ← pReqK
+  pure { host := host, messageRequest := k }
 
 structure Case where
   inc : Bool
   chosen : Option (List Name)
   regs : List CReg
-  streams : List (List Reflection.Req)
+  streams : List (List Reflection.Request)
   own : Option (File × File)
 
 def pCase : PM Case := do
@@ -182,13 +191,21 @@ def indexOf (files : List File) (f : File) : String :=
   | none => "fd-unknown"
 
 def answerText (files : List File) : Reflection.Answer → List String
-  | .fileDescriptor f => ["r1", indexOf files f]
-  | .extensionNumbers => ["r1", "ext-empty"]
-  | .services l => ["r1", s!"svcs {l.length}"] ++ l.map hex
+  | .fileDescriptor f => [indexOf files f]
+  | .extensionNumbers => ["ext-empty"]
+  | .services l => [s!"svcs {l.length}"] ++ l.map hex
 
-def streamText (files : List File) (st : Reflection.State) (reqs : List Reflection.Req) : List String :=
+/-- `r1`: the i-th response carries the i-th request's host and the request itself -/
+def responseTexts (files : List File) : List Reflection.Request → List Reflection.Response → List String
+  | rq :: rqs, rs :: rss =>
+    (if decide (rs.validHost = rq.host) && decide (rs.originalRequest = rq) then "r1" else "r0")
+      :: answerText files rs.answer ++ responseTexts files rqs rss
+  | [], rs :: rss => "r0" :: answerText files rs.answer ++ responseTexts files [] rss
+  | _, [] => []
+
+def streamText (files : List File) (st : Reflection.State) (reqs : List Reflection.Request) : List String :=
   let (as, fin) := Reflection.runStream st reqs
-  ["["] ++ (as.map (answerText files)).flatten ++
+  ["["] ++ responseTexts files reqs as ++
     (match fin with
      | none => ["end"]
      | some (c, m) => [s!"err {c.toNat} {hex m}"]) ++ ["]"]
@@ -279,7 +296,7 @@ def judgeAnswer (c : Case) (files : List File) (rq : Reflection.Req) (a : OAns) 
       | some f => decide (f.name = some nm)
       | none => false)]
   | .fileByFilename _, _ => [("file-answer-kind", false)]
-  | .listServices, .svcs l =>
+  | .listServices _, .svcs l =>
     match c.chosen with
     | some ch => [("services-chosen", decide (l = ch))]
     | none =>
@@ -293,7 +310,7 @@ def judgeAnswer (c : Case) (files : List File) (rq : Reflection.Req) (a : OAns) 
           f.services.all (fun s => match s.name with
             | some sn => l.contains (qual (pkg f) sn)
             | none => true)))]
-  | .listServices, _ => [("services-answer-kind", false)]
+  | .listServices _, _ => [("services-answer-kind", false)]
   | _, _ => []
 
 open Spec.Reflection in
@@ -307,16 +324,16 @@ def judgeEnd (files : List File) (rq : Reflection.Req) (code : Nat) : List (Stri
      ("registered-file-retrievable", files.all (fun f => !decide (f.name = some nm)))]
   | _ => []
 
-def judgeStream (c : Case) (files : List File) : List Reflection.Req → List OAns → OEnd → List (String × Bool)
-  | rq :: rqs, a :: as, e => judgeAnswer c files rq a ++ judgeStream c files rqs as e
+def judgeStream (c : Case) (files : List File) : List Reflection.Request → List OAns → OEnd → List (String × Bool)
+  | rq :: rqs, a :: as, e => judgeAnswer c files rq.messageRequest a ++ judgeStream c files rqs as e
   | [], _ :: _, _ => [("more-answers-than-requests", false)]
   | [], [], .fin => []
   | _ :: _, [], .fin => [("answers-every-request", false)]
   | [], [], .err _ => [("error-without-request", false)]
-  | rq :: _, [], .err code => judgeEnd files rq code
+  | rq :: _, [], .err code => judgeEnd files rq.messageRequest code
   | _, [], .junk => [("stream-shape", false)]
 
-def judgeStreams (c : Case) (files : List File) : List (List Reflection.Req) → List (List OAns × OEnd) → List (String × Bool)
+def judgeStreams (c : Case) (files : List File) : List (List Reflection.Request) → List (List OAns × OEnd) → List (String × Bool)
   | rs :: rss, (as, e) :: oss => judgeStream c files rs as e ++ judgeStreams c files rss oss
   | [], [] => []
   | _, _ => [("stream-count", false)]
